@@ -59,7 +59,16 @@ pub fn wire_rt<T: DeserializeOwned + Serialize + PartialEq + std::fmt::Debug>(do
         "client_escaped": verdict(&conjure_serde::json::client_from_str::<T>(&escaped)) == base_c,
         "client_escaped_reader": verdict(&conjure_serde::json::client_from_reader::<_, T>(escaped.as_bytes())) == base_c,
     });
-    json!({"server": side(server), "client": side(client), "smile_roundtrip": smile_ok, "twice_equal": twice, "spellings": spellings})
+    // the document parsed into the dynamic `any` first and viewed as T: the same verdict and value as direct (client) parsing
+    let via_any = match conjure_serde::json::client_from_str::<conjure_object::Any>(doc) {
+        Ok(any) => {
+            let v = any.deserialize_into::<T>();
+            let text = v.as_ref().ok().and_then(|v| conjure_serde::json::to_string(v).ok());
+            json!({"agree": text == base_c, "text": text, "err": v.err().map(|e| e.to_string())})
+        }
+        Err(e) => json!({"parse": e.to_string()}),
+    };
+    json!({"server": side(server), "client": side(client), "smile_roundtrip": smile_ok, "twice_equal": twice, "spellings": spellings, "via_any": via_any})
 }
 
 /// rewrites the characters of JSON string VALUES as \\uXXXX escapes; keys (number-like keys are parsed from the raw text by
